@@ -128,6 +128,7 @@ func main() {
 		mapOrder   = flag.String("maporder", "insertion", "insertion | symbolic")
 		trace      = flag.Bool("trace", false, "trace SSA instructions")
 		list       = flag.Bool("list", false, "list harness functions and exit")
+		concretes  = flag.String("concretes", "", "translator validation: run the harness concretely on each input vector of this JSON file ({\"vectors\":[{name:{t,v}}...]}) and write the list of outcomes")
 		cross      = flag.String("cross", "", "second solver (z3|z3new|cvc5): re-discharge solver-decided obligations one-shot")
 		crossMax   = flag.Int("crossmax", 300, "at most this many cross-checked obligations")
 		params     multiFlag
@@ -234,6 +235,57 @@ func main() {
 			cfg.Concrete = map[string]replayInput{}
 		}
 		cfg.Workers = 1
+	}
+	if *concretes != "" {
+		b, err := os.ReadFile(*concretes)
+		if err != nil {
+			fmt.Fprintln(os.Stderr, "gosym:", err)
+			os.Exit(3)
+		}
+		var vf struct {
+			Vectors []map[string]replayInput `json:"vectors"`
+		}
+		if err := json.Unmarshal(b, &vf); err != nil {
+			fmt.Fprintln(os.Stderr, "gosym:", err)
+			os.Exit(3)
+		}
+		var outcomes []string
+		for _, vec := range vf.Vectors {
+			c := cfg
+			c.Concrete = vec
+			if c.Concrete == nil {
+				c.Concrete = map[string]replayInput{}
+			}
+			c.Workers = 1
+			c.CrossSolver = ""
+			x := &Explorer{cfg: c, prog: prog, harness: hf, initPkgs: []*ssa.Package{target}}
+			res, err := x.Run()
+			out := "error"
+			switch {
+			case err != nil:
+				out = "engine-error: " + err.Error()
+			case res.Stats.Paths != 1:
+				out = "forked" // residual nondeterminism (uninterpreted functions): not comparable
+			case len(res.Violations) > 0 && res.Violations[0].Kind == "panic":
+				out = "panic"
+			case len(res.Violations) > 0:
+				out = "assert:" + res.Violations[0].Label
+			case res.Stats.PathEnds["done"] == 1:
+				out = "ok"
+			case res.Stats.PathEnds["assume"] == 1:
+				out = "assume"
+			default:
+				out = "unsupported"
+			}
+			outcomes = append(outcomes, out)
+		}
+		if *jsonOut != "" {
+			writeJSON(*jsonOut, map[string]interface{}{"outcomes": outcomes})
+		}
+		for i, o := range outcomes {
+			fmt.Printf("vector %d: %s\n", i, o)
+		}
+		return
 	}
 	x := &Explorer{cfg: cfg, prog: prog, harness: hf, initPkgs: []*ssa.Package{target}}
 	res, err := x.Run()
